@@ -553,21 +553,18 @@ fn lower_finding(c: &BCase) -> bool {
 /// open finding: char_code(C, N) with N a big integer outside the small-integer range panics
 /// (system_calls.rs char_code: `(&*n).try_into().unwrap()`) instead of raising
 /// representation_error(character_code); reached directly and through atom_codes/2 (codes_or_vars)
+#[allow(dead_code)]
 const BIGCODE_SIG: &str = "char_code:bigint-code-panics";
 
+#[allow(dead_code)]
 fn bigcode_finding(c: &BCase) -> bool {
     let is_big = matches!(non_code(c.bad), T::Int(ref v) if *v < -crate::num::ipow2(55) || *v >= crate::num::ipow2(55));
     is_big && ((c.call == "char_code" && c.mode % 9 == 8) || (c.call == "atom_codes" && c.mode % 10 == 9))
 }
 
-fn avoid_findings(mut c: BCase) -> BCase {
-    if bigcode_finding(&c) && c.k % 16 != 0 {
-        c.bad = 50_000; // 2^40: not a character code, but a small integer
-    }
-    if lower_finding(&c) && c.bad % 16 != 0 {
-        // ask for the upper/1 mapping instead (mode 3)
-        c.mode = (c.mode / 6) * 6 + 3;
-    }
+/// both findings of this property are fixed in the tree under test (a60600d, bd4a35a): their input
+/// classes are generated without restriction; the stored witnesses are regression replays
+fn avoid_findings(c: BCase) -> BCase {
     c
 }
 
@@ -587,11 +584,9 @@ pub fn check(env: &mut Env, c: &BCase) -> Verdict {
     let sp = spec(c);
     let q = format!("vp_decs([{}, {}], [At, Bt]), {}{}", T::Atom(c.a.clone()).enc_text(), T::Atom(c.b.clone()).enc_text(), sp.pre, sp.goal);
     let o = env.s.ask(&q, "R");
-    let known = lower_finding(c);
+    let known = false;
+    let _ = (lower_finding as fn(&BCase) -> bool, LOWER_SIG);
     let ok = match (&sp.exp, &o) {
-        (_, Outcome::Panic(m)) if bigcode_finding(c) => {
-            return Verdict::fail(BIGCODE_SIG, format!("{q} panicked: {m}"));
-        }
         (_, Outcome::Panic(m)) => {
             return Verdict::fail(format!("panic:{}:{}", m.split_whitespace().next().unwrap_or("?"), sp.class), format!("{q} panicked: {m}"));
         }
